@@ -24,7 +24,19 @@ All scratch files live in a tempfile.mkdtemp() directory that is removed before 
 import os, re, json, shutil, subprocess, tempfile, itertools
 
 TIMEOUT = 120
-MINI_ENV = {'PATH': '/usr/local/bin:/usr/bin:/bin:/root/.cargo/bin', 'LC_ALL': 'C', 'LANG': 'C', 'HOME': '/nonexistent'}
+
+
+def _tool_env():
+    env = dict(os.environ)
+    env['LC_ALL'] = 'C'
+    env['LANG'] = 'C'
+    env['PATH'] = env.get('PATH', '') + ':/usr/local/bin:/usr/bin:/bin:' + os.path.expanduser('~/.cargo/bin')
+    for k in ('PYTHONPATH', 'PYTHONHASHSEED'):
+        env.pop(k, None)
+    return env
+
+
+MINI_ENV = _tool_env()
 
 
 class HarnessProblem(Exception):
@@ -829,3 +841,38 @@ def read_dip(text, specs=None):
 
 READERS = dict(c=read_c, cpp=read_cpp, fortran=read_fortran, rust=read_rust, bash=read_bash, json=read_json,
                yaml=read_yaml, toml=read_toml, dip=read_dip)
+
+
+# =========================================================================== tool self-test
+
+_SELFTEST = {}
+
+
+def selftest(backend):
+    """compile / load a trivial known-good file once per process; a failure is a harness problem, not a finding"""
+    if backend in _SELFTEST:
+        return
+    if backend in ('c', 'cpp'):
+        r = read_c('#ifndef G_H\n#define G_H\n\nconst int ZQ_OK = 7;\n\n#endif /* G_H */', [dict(name='ZQ_OK', kind='int')],
+                   cpp=(backend == 'cpp'))
+    elif backend == 'fortran':
+        r = read_fortran('module ConfigurationModule\n  implicit none\n\n  integer, parameter :: ZQ_OK = 7;\n\n'
+                         'end module ConfigurationModule', [dict(name='ZQ_OK', kind='int')])
+    elif backend == 'rust':
+        r = read_rust('pub const ZQ_OK: i32 = 7;', [dict(name='ZQ_OK', kind='int')])
+    elif backend == 'bash':
+        r = read_bash('export ZQ_OK=7', [])
+    elif backend == 'json':
+        r = read_json('{"ZQ_OK": 7}')
+    elif backend == 'yaml':
+        r = read_yaml('ZQ_OK: 7')
+    elif backend == 'toml':
+        r = read_toml('ZQ_OK = 7')
+    elif backend == 'dip':
+        r = read_dip('ZQ_OK int = 7')
+    else:
+        raise HarnessProblem('unknown back-end ' + backend)
+    v = r['symbols'].get('ZQ_OK', {}).get('values')
+    if r['status'] != 'ok' or v not in ([7], ['7']):
+        raise HarnessProblem('reader self-test failed for %s: %s %s' % (backend, r['status'], r['message'][-600:]))
+    _SELFTEST[backend] = True
